@@ -14,7 +14,9 @@ Recs == ndJsonDeserialize(IOEnv.TRACE)
 
 ToSt(j) == [root |-> j.root, p |-> j.p, l |-> j.l, r |-> j.r, c |-> j.c, size |-> j.size]
 SameSt(j, s) == ~j.bad /\ ToSt(j) = Canon(s)
-Aux(j) == <<j.cur, j.osize, j.oroot>>
+\* cfg: the configuration (node member, comparison function, private pointer) of the tree object that holds the
+\* elements; the second tree object is configured differently, and a swap moves configuration and contents together
+Aux(j) == <<j.cur, j.osize, j.oroot, j.cfg>>
 
 StepOK(rec) ==
     IF rec.out # "ok" \/ rec.pre.bad THEN FALSE ELSE
@@ -31,7 +33,7 @@ StepOK(rec) ==
       [] rec.op = "height" -> LET h == HeightOp(pre) IN
                               rec.post = rec.pre /\ h.min = rec.min /\ h.max = rec.max
       [] rec.op = "swap" -> ToSt(rec.post) = pre /\ rec.post.cur = 1 - rec.pre.cur
-                              /\ rec.post.osize = 0 /\ rec.post.oroot = 0
+                              /\ rec.post.osize = 0 /\ rec.post.oroot = 0 /\ rec.post.cfg = rec.pre.cfg /\ rec.pre.cfg \in {1, 2}
       [] OTHER -> FALSE
 
 \* C01 (+ C15 for clear): contents, order, return values
